@@ -8,4 +8,5 @@ def run(ck):
     status.r5_blt_fill(ck, P)
     accepted = codec.r9_color_to_pixel(ck, P)
     status.r19_4_depths(ck, P, accepted)
+    status.r19_6_op_reduction(ck, P)
     geometry.r2_raw_writers_bounded(ck, P, rows=False)
